@@ -112,6 +112,9 @@ class RfcommWire:
         if self.cids is None:
             return
         if direction == 'out' and cid == self.cids[1]:
+            lim = getattr(self, 'peer_l2cap_mtu', None)
+            if lim is not None and len(payload) > lim:
+                self.sim.violation_once('l2mtu', f'rfcomm:frame-exceeds-peer-l2cap-mtu:{self.label}', f'{len(payload)}-byte RFCOMM frame for a peer whose L2CAP MTU is {lim}')
             f = parse_rfcomm(payload)
             if f is None or f['type'] != 0xEF or f['dlci'] == 0:
                 return
@@ -183,6 +186,8 @@ def run_rfcomm(case):
         ch0 = client.l2cap_channel
         wire[0].bind(ch0.source_cid, ch0.destination_cid)
         wire[1].bind(ch0.destination_cid, ch0.source_cid)
+        # what each end announced at L2CAP level bounds every frame the other end may send, whatever RFCOMM negotiated
+        wire[0].peer_l2cap_mtu, wire[1].peer_l2cap_mtu = b['l2cap_mtu'], a['l2cap_mtu']
         dl = {}  # index -> [dlc_initiator, dlc_acceptor]
         rx = {}
         want = {}
